@@ -251,3 +251,61 @@ func afterTerminatingSwitch(m *model.Model, pkgInfo *types.Info, body *ast.Block
 	})
 	return found
 }
+
+// mustPass reports whether every path from the entry of body to a normal exit passes through
+// the CFG node that contains target (exits through panic are ignored).
+func mustPass(body *ast.BlockStmt, target ast.Node) bool {
+	if body == nil {
+		return false
+	}
+	g := cfg.New(body, func(*ast.CallExpr) bool { return true })
+	if len(g.Blocks) == 0 {
+		return false
+	}
+	var tb *cfg.Block
+	best := token.Pos(-1)
+	for _, b := range g.Blocks {
+		for _, n := range b.Nodes {
+			if n.Pos() <= target.Pos() && target.End() <= n.End() {
+				span := n.End() - n.Pos()
+				if best < 0 || span < best {
+					best, tb = span, b
+				}
+			}
+		}
+	}
+	if tb == nil {
+		return false
+	}
+	if tb == g.Blocks[0] {
+		return true
+	}
+	seen := map[int32]bool{}
+	escaped := false
+	var dfs func(b *cfg.Block)
+	dfs = func(b *cfg.Block) {
+		if seen[b.Index] || b == tb || escaped {
+			return
+		}
+		seen[b.Index] = true
+		if len(b.Succs) == 0 {
+			// a normal exit reached without passing the target
+			if len(b.Nodes) > 0 {
+				if es, ok := b.Nodes[len(b.Nodes)-1].(*ast.ExprStmt); ok {
+					if call, ok := es.X.(*ast.CallExpr); ok {
+						if id, ok := call.Fun.(*ast.Ident); ok && id.Name == "panic" {
+							return
+						}
+					}
+				}
+			}
+			escaped = true
+			return
+		}
+		for _, s := range b.Succs {
+			dfs(s)
+		}
+	}
+	dfs(g.Blocks[0])
+	return !escaped
+}
